@@ -287,17 +287,18 @@ class RunCase(Case):
             return None
         # the property itself: with a seed, two runs from different hidden generator states write the same text,
         # every random.seed call uses the seed given, and nothing draws before the first of them
-        if any(s != seed for s in st["seeds"]):
-            return {"argv": self._argv, "seeded_with": [repr(s) for s in st["seeds"]][:4]}
+        # suspicious traces (a seeding with something else than the seed, a draw before the first seeding) widen the
+        # comparison; they are not failures by themselves (the value drawn may be unused)
         first_seed = next((i for i, e in enumerate(st["events"]) if e[0] == "seed"), None)
-        if st["out"][0] == "text" and any(e[0] == "draw" for e in st["events"][:first_seed]):
-            return {"argv": self._argv, "draws_before_first_seed": True}
-        out2, _ = run_real(self._argv, 977)
-        if out2 != st["out"]:
-            a = st["out"][1].split("\n") if st["out"][0] == "text" else [st["out"][1]]
-            b = out2[1].split("\n") if out2[0] == "text" else [out2[1]]
-            diff = [(x, y) for x, y in zip(a, b) if x != y][:3]
-            return {"argv": self._argv, "outputs_differ_between_generator_states": diff or [len(a), len(b)]}
+        suspicious = any(s != seed for s in st["seeds"]) or \
+            (st["out"][0] == "text" and any(e[0] == "draw" for e in st["events"][:first_seed]))
+        for pre in ((977, 31, 5, 123456, 8) if suspicious else (977,)):
+            out2, _ = run_real(self._argv, pre)
+            if out2 != st["out"]:
+                a = st["out"][1].split("\n") if st["out"][0] == "text" else [st["out"][1]]
+                b = out2[1].split("\n") if out2[0] == "text" else [out2[1]]
+                diff = [(x, y) for x, y in zip(a, b) if x != y][:3]
+                return {"argv": self._argv, "outputs_differ_between_generator_states": diff or [len(a), len(b)]}
         return None
 
 
@@ -509,17 +510,37 @@ def trace_case(tool, cmd, seed):
         prepare()
         return ok(" ".join(state["toks"]))
 
+    def sig(F):
+        return (type(F).__name__, F.number_of_variables(), [list(c) for c in F], list(F.header.items()))
+
     def oracle():
         prepare()
         toks = state["toks"]
         if seed is None:
             return None
-        if "seedOther" in toks:
-            return {"argv": argv, "seeded_with_something_else": True}
-        if "draws" in toks and ("seed" not in toks or toks.index("draws") < toks.index("seed")):
-            return {"argv": argv, "generator_events": toks, "draws_before_first_seed": True}
         if tool in ("cnfgen", "pbgen") and str(state["hdr"].get("random seed")) != str(seed):
             return {"argv": argv, "header_random_seed": str(state["hdr"].get("random seed"))}
+        # the property: the same formula from every hidden initial state; a suspicious trace (seeding with something
+        # else, a draw before the first seeding) is not a failure by itself, it widens the comparison
+        suspicious = "seedOther" in toks or ("draws" in toks and ("seed" not in toks or toks.index("draws") < toks.index("seed")))
+        if not suspicious:
+            return None
+        sigs = []
+        for pre in (1, 22, 333, 4444):
+            _mod_random.seed(pre)
+            for _ in range(pre % 7):
+                _mod_random.random()
+            old = sys.stdin
+            if tool == "cnfshuffle":
+                sys.stdin = io.StringIO(SHUFFLE_TEXT)
+            try:
+                with contextlib.redirect_stderr(io.StringIO()), contextlib.redirect_stdout(io.StringIO()):
+                    cli = {"cnfgen": tool_cnfgen.cli, "pbgen": tool_pbgen.cli, "cnfshuffle": tool_shuffle.cli}[tool]
+                    sigs.append(sig(cli(list(argv), mode="formula")))
+            finally:
+                sys.stdin = old
+        if any(x != sigs[0] for x in sigs[1:]):
+            return {"argv": argv, "generator_events": toks, "formula_depends_on_initial_generator_state": True}
         return None
     c = C("phasetrace", "", impl, oracle, cls=tool + ":" + cmd[0] if cmd else tool, info={"tool": tool, "cmd": cmd, "seed": seed})
     c.stateless = False
